@@ -149,7 +149,8 @@ func newPermWorld(t *testing.T, rc *RunCtx) *permWorld {
 	InitBLS()
 	rt, clients := drawTable(rc)
 	s := NewSched(rc, SchedCfg{StayBias: 0.5, MaxSteps: 1 << 20})
-	c := NewCluster(t, rc, s, ClusterCfg{IDs: []uint64{1}, Perms: map[string][]*checker.Permissions(rt), Specs: append(append([]WalletSpec{}, permWallets...), WalletSpec{Name: "Dist", Kind: "distributed"})})
+	// Two instances with the same wallets and the same permission table: a distributed account is created by both.
+	c := NewCluster(t, rc, s, ClusterCfg{IDs: []uint64{1, 2}, Perms: map[string][]*checker.Permissions(rt), Specs: append(append([]WalletSpec{}, permWallets...), WalletSpec{Name: "Dist", Kind: "distributed"})})
 	return &permWorld{rc: rc, t: t, s: s, c: c, n: c.Nodes[0], rt: rt, clients: clients, epoch: map[string]uint64{}}
 }
 
@@ -259,9 +260,24 @@ func runPerm(t *testing.T, rc *RunCtx) {
 			case 7:
 				reqAccount = "\t" + account + "\n"
 			}
-			res, err := inst.AcctH.Generate(ctx, &pb.GenerateRequest{Account: wallet + "/" + reqAccount, Passphrase: []byte("pass"), Participants: 1, SigningThreshold: 1})
+			parts, thr := uint32(1), uint32(1)
+			if ch.Pick(4, 0) == 3 {
+				// a distributed account: the same operation, carried out by both instances
+				wallet, parts, thr = "Dist", 2, 2
+				rc.Stats.Inc("distributed_creations_requested", 1)
+			}
+			res, err := inst.AcctH.Generate(ctx, &pb.GenerateRequest{Account: wallet + "/" + reqAccount, Passphrase: []byte("pass"), Participants: parts, SigningThreshold: thr})
 			served = err == nil && res.GetState() == pb.ResponseState_SUCCEEDED
-			if served {
+			if !served && parts > 1 {
+				// not reported as created: then nothing was created anywhere
+				for _, nd := range w.c.Nodes {
+					if st, ca := nd.hasAccount(wallet + "/" + strings.TrimSpace(reqAccount)); st || ca {
+						served = true
+						rc.Stats.Inc("distributed_creation_refused_but_account_exists", 1)
+					}
+				}
+			}
+			if served && parts == 1 {
 				account = reqAccount
 				if _, _, ferr := inst.FetcherW.Service.FetchAccount(context.Background(), wallet+"/"+reqAccount); ferr != nil {
 					// not stored under the requested name: look for the name it was given
